@@ -739,6 +739,19 @@ fn eval0(g: &G, pos: usize, env: Env, w: &mut World) -> R {
             let (e, _) = eval(a, pos, env, w)?;
             Some((e, Val::Z))
         }
+        Ext(a, _) | CustomNest(a) => {
+            // `inp.parse(&inner)` takes the WHOLE pending error on failure and hands it to the caller as
+            // a value; Ext / custom then file it under their own start position
+            match eval(a, pos, env, w) {
+                Some((e, v)) => Some((e, Val::M(bx(v)))),
+                None => {
+                    let mut alt = w.take_alt_or_fake(pos);
+                    alt.pos = pos;
+                    w.add_err(alt);
+                    None
+                }
+            }
+        }
         Lazy(a) => {
             // a.then_ignore(any().repeated())
             let (e, v) = eval(a, pos, env, w)?;
